@@ -241,6 +241,10 @@ class MockState:
             break
         # parse block
         blockquote = nodes.block_quote()
+        (
+            blockquote.source,
+            blockquote.line,
+        ) = self.state_machine.get_source_and_line(self._lineno + line_offset + 1)
         self.nested_parse(blockquote_lines, line_offset, blockquote)
         elements.append(blockquote)
         # parse attribution
